@@ -35,6 +35,9 @@ impl vstd::std_specs::convert::FromSpecImpl<ErrorCode> for Error {
 impl From<ErrorCode> for Error {
     fn from(e: ErrorCode) -> (r: Self) { Error { code: e } }
 }
+//@ assume the `?` operator converts an ErrorCode into the anchor Error with From::from (vstd leaves the conversion relation spec_from uninterpreted)
+#[verifier::external_body]
+pub broadcast proof fn ax_qmark_anchor(e: ErrorCode, r: Error) requires #[trigger] vstd::std_specs::control_flow::spec_from::<Error, ErrorCode>(e, r) ensures r == (Error { code: e }) {}
 pub open spec fn err<T>(c: ErrorCode) -> Result<T> { Err(Error { code: c }) }
 
 /// Anchor `Account<'info, T>`: only the deref to the deserialized data and the key are modelled.
